@@ -209,7 +209,19 @@ pub fn run(ctx: &Ctx, rep: &mut Report) {
             keys.push(([b"net".to_vec(), d.to_vec(), b"2024".to_vec()].concat(), b"0xfeed-0".to_vec()));
             keys.push((b"net".to_vec(), [b"2024".to_vec(), d.to_vec(), b"0xfeed-0".to_vec()].concat()));
         }
-        while keys.len() < 8 {
+        // long names whose plain concatenations coincide (beyond any size threshold an implementation
+        // may switch representation at), with upper-case letters
+        {
+            let len = *rng.pick(&[130usize, 200, 300, 1100]);
+            let mut long: Vec<u8> = b"Avalanche-Fuji-0x".to_vec();
+            while long.len() < len {
+                long.push(b"0123456789abcdefXYZ"[long.len() % 19]);
+            }
+            let (k1, k2) = (9, 14);
+            keys.push((long[..k1].to_vec(), long[k1..].to_vec()));
+            keys.push((long[..k2].to_vec(), long[k2..].to_vec()));
+        }
+        while keys.len() < 10 {
             let k = (rng.pick(&CHAINS).to_vec(), rng.pick(&IDS).to_vec());
             if !keys.contains(&k) {
                 keys.push(k);
@@ -504,7 +516,7 @@ pub fn run(ctx: &Ctx, rep: &mut Report) {
         }
     }
     rep.notes.insert("required".into(), json!(REQUIRED));
-    rep.notes.insert("rule".into(), json!("universes of 50 operations over 8 (chain,id) keys whose concatenations collide (directly, or when joined with one of six delimiters), 2-3 contents per key; ops: single/batched honest approvals with in-batch duplicates, consumption in 9 variants (conforming, again, wrong caller, no/stranger/other-arguments authorisation, wrong source address, wrong payload hash, split variant), ledger advancement by 1 to 1 300 000 ledgers; after every op every key x content (and single-field variations) is queried; distinct = (op class, key status before, consumable, outcome)"));
+    rep.notes.insert("rule".into(), json!("universes of 50 operations over 10 (chain,id) keys whose concatenations collide (directly, when joined with one of six delimiters, or as two splits of one 130..1100-byte string), 2-3 contents per key; ops: single/batched honest approvals with in-batch duplicates, consumption in 9 variants (conforming, again, wrong caller, no/stranger/other-arguments authorisation, wrong source address, wrong payload hash, split variant), ledger advancement by 1 to 1 300 000 ledgers; after every op every key x content (and single-field variations) is queried; distinct = (op class, key status before, consumable, outcome)"));
 }
 
 fn dedup_keys(batch: &[MMessage]) -> usize {
